@@ -51,7 +51,28 @@ META = {}
 PLAN = {}
 
 
+# what later rounds of seeded changes added to each check (appended to the rule text of the evidence / manifest)
+ADDED = {
+    "C01": "; the standalone constructors are also given the same full name cut at another place; the last four shards run in a hostile process environment (getenv interposer answers every variable asked for, usual DogStatsD variables set)",
+    "C03": "; refusal payload shapes (message, typed payload, a cadence error as payload, raw OS error, nested io::Error); one step in six first makes the same builder and drops it unsent (no emit, no handler call)",
+    "C04": "; the last four shards run in a hostile process environment (getenv interposer answers every variable asked for, usual DogStatsD variables set): a client adds nothing of its own",
+    "C06": "; W5 flushes also with 1-3 metrics still queued behind the one the queue's thread holds; miri_time (hour-long pauses on Miri's virtual clock) and seven histories with real pauses of 1.3 / 2.6 s",
+    "C08": "; composed queuing sinks (a queue feeding a queue, a handler reporting through a queue); miri_time: a wrapped sink that stalls for a virtual hour with metrics accepted behind it - age is no reason to skip a metric",
+    "C09": "; miri_time: a backlog behind a sink that needs ten virtual minutes per metric is handed over completely after the last drop, drop itself takes no virtual time, release within a virtual day; miri_queue: last drop at the moment of the last delivery (weak-memory emulation)",
+    "C10": "; unbounded queues with backlogs of 70 000 and 2^20 + 60 000 behind the blocked sink accept everything; emit called on another queuing sink's thread (queue -> queue, handler -> queue) is answered like any caller's; a wrapped sink and handler using 100 KiB of stack; a driver killed by a signal counts",
+    "C11": "; a refusal with room in the queue after a panic of the wrapped sink counts here too ('keeps accepting')",
+    "C12": "; every other run ends with the drop alone (no final flush)",
+    "C13": "; socket file names with special first bytes (@ - ~ # % : blank) as bare relative paths, buffered Unix sinks addressed relatively; address lists whose first entry is of the other family than the socket (first address is the destination, the second stays silent)",
+    "C16": "; every fourth history runs against a wrapped sink whose flush() fails with an error of its own (only a caller's flush may see it: a handler call carrying it is handler-without-failure)",
+    "C17": "; macros invoked from a thread-local destructor at thread exit (client set); a process killed by a signal counts",
+    "C19": "; W5: metrics refused by a wrapper in front of the buffered sink give no reason to write; miri_time (hour-long pauses on Miri's virtual clock: direct, behind an idle queue, after dropping one of two handles) and seven histories with real pauses of 1.3 / 2.6 s - nothing is written 'after a while'",
+    "C20": "; area tls: metrics recorded from thread-local destructors at thread exit (queue, client over queue, buffered spy, client with handler); miri_api: a tour of the whole public API under Miri (UB / data races of the paths reached, lines compared with literals)",
+}
+
+
 def meta(prop, **kw):
+    if prop in ADDED and "rule" in kw:
+        kw["rule"] = kw["rule"] + ADDED[prop]
     META[prop] = kw
 
 
